@@ -19,6 +19,7 @@
 #include <deque>
 #include <unordered_set>
 #include <sstream>
+#include <algorithm>
 
 namespace verif {
 
@@ -264,6 +265,20 @@ Instance bfs_instance(const std::string &name, BfsOptions opt, Args... args) {
 	i.run = [=](const std::vector<CrashInfo> &cr) { H h(args...); return bfs(h, name, opt, cr); };
 	i.replay = [=](const std::string &hist) { H h(args...); return replay(h, hist); };
 	return i;
+}
+
+// merge several BFS runs into one instance result
+inline void merge(InstResult &a, const InstResult &b) {
+	a.states += b.states; a.transitions += b.transitions; a.evaluations += b.evaluations; a.distinct += b.distinct;
+	a.max_depth = std::max(a.max_depth, b.max_depth);
+	a.complete = a.complete && b.complete;
+	a.fixpoint = a.fixpoint && b.fixpoint;
+	if(!b.cap.empty()) a.cap = b.cap;
+	for(auto &o : b.outcomes) a.outcomes.insert(o);
+	for(auto &kv : b.counters) a.counters[kv.first] += kv.second;
+	for(auto &s : b.samples) if(a.samples.size() < 4) a.samples.push_back(b.name + ": " + s);
+	for(auto &v : b.violations) { bool d = false; for(auto &x : a.violations) if(x.sig == v.sig && x.prop == v.prop) d = true; if(!d) a.violations.push_back(v); }
+	a.wall += b.wall;
 }
 
 } // namespace verif
